@@ -83,6 +83,14 @@ def curve_trace(sc):
                     zq, _ = _q(g.z_r[:, j, i], 256)
                     for z, k, a in zip(Z, K, A):
                         ev.append(dict(ev="lookup", zr=zq, zneg=int(np.rint(-z * 256)), K=int(k), Aq=int(np.rint(float(a) * 4096)) if np.isfinite(a) else -1))
+            # particles between two cells of different depth: the column of the particle's own (nearest) cell must be used
+            if N >= 2 and float(g.H[0, 0]) <= 200 and float(g.H[0, 1]) <= 200:
+                cols = [_q(g.z_r[:, 0, 0], 256)[0], _q(g.z_r[:, 0, 1], 256)[0]]
+                for xq in (1, 2, 3):
+                    Z = np.linspace(0.5, float(min(g.H[0, 0], g.H[0, 1])) * 0.95, 7)
+                    K, A = z2s(g.z_r, np.full(len(Z), xq / 4.0), np.zeros(len(Z)), Z)
+                    for z, k, a in zip(Z, K, A):
+                        ev.append(dict(ev="lookup2", cols=cols, xq=xq, zneg=int(np.rint(-z * 256)), K=int(k), Aq=int(np.rint(float(a) * 4096)) if np.isfinite(a) else -1))
     except Exception as e:
         import traceback
         tb_ = traceback.extract_tb(e.__traceback__)[-1]
